@@ -69,6 +69,7 @@ func canonType(s string) string {
 }
 
 func (e *Engine) typeKey(t types.Type) string {
+	t = types.Unalias(t)
 	s := canonType(types.TypeString(t, func(p *types.Package) string { return p.Name() }))
 	k := cleanName(s)
 	if len(k) > 60 {
@@ -146,6 +147,9 @@ func isBool(t types.Type) bool {
 var transparentExtern = map[string]bool{"container/ring.Ring": true}
 
 func (e *Engine) opaqueStruct(t types.Type) bool {
+	if t != nil {
+		t = types.Unalias(t)
+	}
 	if n, ok := t.(*types.Named); ok {
 		if _, isS := n.Underlying().(*types.Struct); isS {
 			if n.Obj().Pkg() != nil && transparentExtern[n.Obj().Pkg().Path()+"."+n.Obj().Name()] {
